@@ -2,7 +2,7 @@
 From Coq Require Import ZArith List Bool Lia Arith Permutation.
 Import ListNotations.
 From Verif Require Import Lib.Corr Lib.Hashring_Ketama Lib.Hashring_KetamaFacts Gen.C21 Model.C21.
-From Verif Require Model.C18 Proofs.C18.
+From Verif Require Import Lib.Hashring_Answers Lib.Hashring_AnswersFacts.
 Close Scope Z_scope.
 
 (* ------------------------------------------------------------------ *)
@@ -120,13 +120,13 @@ Qed.
 Lemma answers_inside_shard (nodes : list nat) sub_eps rf v a :
   length sub_eps = length nodes ->
   sections_of 0 sub_eps <> [] ->
-  Model.C18.ketama_answers sub_eps rf v = Some a ->
+  ketama_answers sub_eps rf v = Some a ->
   length a = rf /\
   (forall i, In i a -> In (nth i nodes 0) nodes) /\
   (NoDup nodes -> NoDup (map (fun i => nth i nodes 0) a)).
 Proof.
   intros Hlen Hne H.
-  destruct (Proofs.C18.ketama_answers_distinct _ _ _ _ Hne H) as [H1 [H2 H3]].
+  destruct (ketama_answers_distinct _ _ _ _ Hne H) as [H1 [H2 H3]].
   split; [exact H1|]. split.
   - intros i Hi. apply nth_In. rewrite <- Hlen. auto.
   - intro Hnd. apply NoDup_map_nth; [exact Hnd|exact H2|]. intros e He. rewrite <- Hlen. auto.
@@ -154,7 +154,7 @@ Lemma zone_nodes_as_positions disabled eps z :
   = length (filter (fun k => (zone_of disabled (az_at eps k) =? z)%Z) (seq 0 (length eps))).
 Proof.
   unfold zone_nodes, az_at.
-  rewrite <- (Proofs.C18.map_nth_seq (0%Z, @nil Z) eps) at 1.
+  rewrite <- (map_nth_seq (0%Z, @nil Z) eps) at 1.
   rewrite filter_map_comm, map_length. reflexivity.
 Qed.
 
